@@ -1,6 +1,7 @@
 """C19 Wire compatibility with the released 0.4.0 protocol (constants, primitives, order).
 
-R-C19-1  transcript schedule incl. label bytes, event kinds (validated / plain append, u64 / bytes) and order == frozen table
+R-C19-1  transcript schedule incl. label bytes, event kinds (validated / plain append, u64 / bytes), order and loop sharing (which
+         absorptions are interleaved per element, which come one whole sequence after the other) == frozen table
 R-C19-2  nonce derivation = Blake2bMac512::new_with_salt_and_personal(key, salt = [], persona = label) with
          key = 0x00 || seed(32) || ['j' || LE32(j)] || ['k' || LE32(k)] in that order, output through from_bytes_mod_order_wide;
          labels alpha dL dR d eta
